@@ -343,7 +343,9 @@ def gen_ddm(r, k, tier):
     def dy(lo, hi):
         return r.randint(lo * 4, hi * 4) / 4.0
     N = r.choice([2, 3, 3, 4, 5])
-    via = r.choice(["set_coupling_by_dipole_dipole", "set_coupling_by_dipole_dipole", "calculate_resonance_coupling"])
+    # ":default": called with NO params at all - the permittivity is then 1, whatever earlier calls (on other aggregates) were given
+    via = r.choice(["set_coupling_by_dipole_dipole", "set_coupling_by_dipole_dipole", "calculate_resonance_coupling",
+                    "calculate_resonance_coupling:default"])
     # calculate_resonance_coupling hands over the permittivity only: the refusal distance is the default one
     delta = r.choice([1.0e-5, 2.0, 4.0]) if via == "set_coupling_by_dipole_dipole" else 1.0e-5
     span = 6 if delta < 1.0 else 3          # some pairs closer than a large refusal distance
@@ -358,8 +360,9 @@ def gen_ddm(r, k, tier):
             J0[a][a] = float(r.randint(-3, 3))
             for b in range(a + 1, N):
                 J0[a][b] = J0[b][a] = float(r.randint(-5, 5))
+    epsr = r.choice([1.0, 2.0, 1.5, 3.25, 0.5])
     return {"kind": "ddm", "pos": pos, "dip": [[dy(-6, 6) for _ in range(3)] for _ in range(N)],
-            "epsr": r.choice([1.0, 2.0, 1.5, 3.25, 0.5]), "delta": delta, "J0": J0, "via": via}
+            "epsr": 1.0 if via.endswith(":default") else epsr, "delta": delta, "J0": J0, "via": via}
 
 
 # ------------------------------------------------------------------ Coq items
@@ -656,6 +659,16 @@ def run(chk, cases):
                 chk.count("ddm:N=%d,delta=%g,via=%s" % (N, c["delta"], c["via"]))
                 if c["via"] == "set_coupling_by_dipole_dipole":
                     agg.set_coupling_by_dipole_dipole(epsr=c["epsr"], delta=c["delta"])
+                elif c["via"].endswith(":default"):
+                    # the two-call sequence: ANOTHER aggregate is given a permittivity first, then this one asks for the default
+                    other = []
+                    for k in range(2):
+                        m = qr.Molecule([0.0, 1.0])
+                        m.set_dipole((0, 1), [1.0, 0.5 * k, 0.0])
+                        m.position = numpy.array([0.0, 0.0, 7.5 * k])
+                        other.append(m)
+                    qr.Aggregate(other).calculate_resonance_coupling(method="dipole-dipole", params=dict(epsr=2.25))
+                    agg.calculate_resonance_coupling(method="dipole-dipole")
                 else:
                     agg.calculate_resonance_coupling(method="dipole-dipole", params=dict(epsr=c["epsr"]))
                 Jm = numpy.array(agg.resonance_coupling, dtype=float)
